@@ -95,6 +95,12 @@ def run(tier, seed):
     v.cov["distinct_nontrivial"] = len({meta[r["id"]]["text"] for r in recs})
     v.cov["trees_with_non_ascii_text"] = nonascii
     v.cov["reached_node_kinds"] = len(kinds)
+    try:
+        import os
+        with open(os.path.join(vlib.WORK, "c01_kinds.json"), "w") as f:
+            json.dump(sorted(kinds), f)
+    except Exception:
+        pass
     v.cov["inputs_not_accepted_skipped"] = skipped
     v.cov["samples"] = [{"source": meta[r["id"]]["text"][:300], "mode": r["mode"], "tokens": sum(1 for n in r["iter"] if r["kinds"][n - 1] == "Locate"), "text_len": r["len"]} for r in recs[:3]]
     v.assumptions = ["the preprocessed text is taken from preprocess_str, the tree from parse_*_pp on it (C20 ties the other entry points to this)",
